@@ -349,14 +349,27 @@ def _seen(inp):
     return None
 
 
+def _lenient(inp):
+    return isinstance(inp.get("obj"), dict) and bool(inp["obj"].get("other_kind"))
+
+
 def _compare(inp, io, mo):
     a = {k: v for k, v in io.items() if k not in ("mon", "trace")} if isinstance(io, dict) else io
+    if a != mo and _lenient(inp) and isinstance(a, dict) and "val" in a:
+        # a mode that is handed the kind of object of another mode refuses it today (so does the model); the
+        # property does not demand the refusal: were it to read the object after all, the object built must be
+        # the one the tagged coordinates determine (judged by `_holds`: monitor + holdsB), nothing else
+        return None
     return None if a == mo else "implementation and model disagree"
 
 
 def _holds(ctx, inp, io):
     """monitor on the real object; the declarative Lean-side test (`holdsB`) is queued and run in a batch"""
     seen = _seen(inp)
+    if seen is None and _lenient(inp) and isinstance(io, dict) and "val" in io:
+        f = inp["obj"].get("fields", {})
+        if f.get("type") in TYPES and "coordinates" in f:
+            seen = (f["type"], f["coordinates"])
     if seen is not None and isinstance(io, dict) and not str(io.get("raise", "")).startswith("crash"):
         out = {"raise": io["raise"]} if "raise" in io else {"val": {"cls": io["val"]["cls"], "coordinates": io["val"]["coordinates"]}}
         q = getattr(ctx, "_c03_queue", None)
@@ -378,6 +391,8 @@ def _flush(ctx, opname):
     res = ctx.model_many("holds", [a for _i, _o, a in q])
     for (inp, io, _a), ok in zip(q, res):
         if ok is not True:
+            # the operation the input belongs to (the corpus stage flushes several operations at once)
+            opname = "construct" if "kw" in inp else ("geometry_validate" if "mode" in inp else "union_validate")
             ctx.fail("property", opname, inp=inp, impl={k: v for k, v in io.items() if k != "trace"},
                      detail="the declarative statement of the property (holdsB) rejects this observed input/output pair")
     ctx.tally("declarative-monitor", len(q))
@@ -1004,6 +1019,19 @@ def _exhaustive(ctx, maxf):
                                                "value; every node deleted, duplicated-last, wrapped, emptied, replaced by a number, by its first item, "
                                                "truncated, reversed, ends swapped")
     ctx.tally("exhaustive:single-site", n)
+    # (f) rings and lines over a pool of three points, repetitions included (a ring of three equal points is a ring)
+    n = 0
+    three = [[F(0), F(0)], [F(1), maxf], [F(2), F(1)]]
+    for k in (2, 3, 4):
+        for seq in itertools.product(three, repeat=k):
+            ring = [list(p) for p in seq]
+            batch += entries("Polygon", enc([ring]))
+            batch += entries("MultiPolygon", enc([[three, ring]]), which=("construct", "json", "union"))
+            batch += entries("MultiLineString", enc([ring]), which=("construct", "attributes"))
+            n += 3
+    ctx.exhaustive["rings with repeated points"] = ("Polygon / MultiPolygon (as a hole) / MultiLineString: every point sequence of length 2..4 over "
+                                                    "3 points, repetitions included")
+    ctx.tally("exhaustive:repeated-points", n)
     return batch
 
 
@@ -1037,7 +1065,8 @@ def _dispatch_cases(ctx, maxf):
             if (mode, kind) in (("dict", "dict"), ("json", "json"), ("attributes", "attrs")):
                 continue
             for cls in ("TimeStamp", "BoundingBox"):
-                batch.append(("geometry_validate", {"mode": mode, "obj": {"kind": kind, "fields": {"type": cls, "coordinates": good[cls]}}}))
+                batch.append(("geometry_validate", {"mode": mode, "obj": {"kind": kind, "other_kind": True,
+                                                                          "fields": {"type": cls, "coordinates": good[cls]}}}))
         batch.append(("geometry_validate", {"mode": mode, "obj": {"kind": "list", "items": enc([F(1)])}}))
     # the union path: tags, missing parts, attribute objects (python mode does not read attributes), non-mappings
     for tag in tags:
